@@ -47,55 +47,13 @@ def run(ctx):
             break
     ctx.ob("R1", "wrap-fresh-envelope", site.loc(), "wrap_as_signable " + ("returns {'signatures': {}, 'signed': deepcopy(obj)}" if ok else "deviates: " + why), ok)
 
-    # ---- R2 sign_signable
-    w = SignSignable(eng)
-    ssite = fn_site(eng, w.sm)
-    msg = canon_bytes(eng, SubC(w.signable, "signed"))
-    n_paths = 0
-    agg = {"gates": True, "one-store": True, "target": True, "value": True, "checked-before-store": True}
-    notes = {}
-    for p in w.returns:
-        n_paths += 1
-        st = State(facts=p.facts)
-        keyt = st.types(w.priv)
-        if not (keyt is not None and all("Ed25519P" in t or t.startswith("obj:common.P") for t in keyt)) or envelope(st, w.signable):
-            agg["gates"] = False
-        evs = [ev for ev, _d in flatten_events(p.events)]
-        stores = [ev for ev in evs if ev[0] in ("store", "del", "mutcall") and ev[2][0] in ("sub", "attr") and _rooted(ev[2], w.signable)]
-        if len(stores) != 1 or stores[0][0] != "store":
-            agg["one-store"] = False
-            notes["one-store"] = "%d stores/mutations of the envelope on a returning path" % len(stores)
-            continue
-        ev = stores[0]
-        tgt, val = ev[2], ev[3]
-        if not (tgt[1] == SubC(w.signable, "signatures") and pubhex_of_private(eng.expand(tgt[2]), w.priv)):
-            agg["target"] = False
-            notes["target"] = "stored at %s" % show(tgt)[:120]
-        sig = entry_dict(eng.expand(val))
-        good, why2 = (False, "entry is %s" % show(val)[:80]) if sig is None else signature_hex(sig, w.priv, msg)
-        if not good:
-            agg["value"] = False
-            notes["value"] = why2
-        else:
-            # grammar facts about the stored signature text were established before the store
-            idx = evs.index(ev)
-            checked = hexconj(st, sig, 128) and any(e[0] == "call" and e[2].startswith("repo:") and e[5][0] == "ok" and any(_mentions(a, sig) for a in e[3]) for e in evs[:idx])
-            if not checked:
-                agg["checked-before-store"] = False
-    texts = {
-        "gates": ("sign_signable validates the key object and the envelope shape before signing", "sign_signable does not validate its key/envelope arguments on every returning path"),
-        "one-store": ("exactly one store into the envelope on every returning path", "not exactly one store into the envelope"),
-        "target": ("the entry is filed under hex(raw public key bytes of the given private key)", "the entry is not filed under the signing key's own public key"),
-        "value": ("the entry is {'signature': hex(private_key.sign(canonserialize(signable['signed'])))}", "the stored entry is not a signature by the given key over the canonical payload"),
-        "checked-before-store": ("the entry passed the signature-entry grammar before it was stored", "the entry is stored without having passed the signature-entry grammar first"),
-    }
-    for k, ok2 in agg.items():
-        ctx.count("R2.items")
-        ctx.ob("R2", "sign-signable|%s" % k, ssite.loc(), (texts[k][0] if ok2 else texts[k][1] + (": " + notes[k] if k in notes else "")) + " (%d returning paths)" % n_paths, ok2)
-    fx = Effects(eng)
-    pw = fx.param_writes(w.sm.fi)
-    bad = [x for x in pw if not (x[0] == w.sm.params[0] and len(x[1]) == 2 and x[1][0] == ("sub", C("signatures")))]
-    ctx.ob("R2", "sign-signable|write-set", ssite.loc(), "interprocedural write set of sign_signable %s" % ("is exactly signable['signatures'][<its key>]" if not bad and pw else "contains more than the signer's own entry: " + "; ".join("%s%s" % (x[0], x[1]) for x in bad)[:200]), not bad and bool(pw))
+    # what wrap_as_signable produces must be what sign_signable / verify_signable take for an
+    # envelope: is_signable decides exactly the envelope grammar (all JSON payload types, C15-R4)
+    from .c15 import predicate_exact
+
+    p_ok, p_why = predicate_exact(eng, "common.is_signable", "envelope")
+    ctx.ob("R1", "envelope-predicate-exact", site.loc(), "is_signable %s" % ("accepts exactly the two-field envelopes with a dict of signatures and a payload of any JSON type" if p_ok else "does not decide the envelope grammar that wrap_as_signable produces: " + p_why), p_ok)
+    sign_signable_rules(ctx, "R2")
 
     # the bytes signed are a faithful image of the JSON value only under the published serializer
     # configuration (C07-R1, re-evaluated here)
@@ -117,6 +75,63 @@ def run(ctx):
     from .c06 import entries_independent
 
     entries_independent(ctx.sub("DEP-C06"), "R3")
+
+
+def sign_signable_rules(ctx, rule):
+    """sign_signable adds exactly one entry - the signer's own, under its own key, a checked
+    signature over the canonical payload - and touches nothing else of the envelope"""
+    from sa.effects import all_events
+
+    eng = ctx.eng
+    w = SignSignable(eng)
+    ssite = fn_site(eng, w.sm)
+    msg = canon_bytes(eng, SubC(w.signable, "signed"))
+    n_paths = 0
+    agg = {"gates": True, "one-store": True, "target": True, "value": True, "checked-before-store": True}
+    notes = {}
+    for p in w.returns:
+        n_paths += 1
+        st = State(facts=p.facts)
+        keyt = st.types(w.priv)
+        if not (keyt is not None and all("Ed25519P" in t or t.startswith("obj:common.P") for t in keyt)) or envelope(st, w.signable):
+            agg["gates"] = False
+        evs = [ev for ev, _d in flatten_events(p.events)]
+        # (stores anywhere on the path, loop bodies included)
+        stores = [ev for ev in all_events(p.events) if ev[0] in ("store", "del", "mutcall") and isinstance(ev[2], tuple) and ev[2][0] in ("sub", "attr") and _rooted(ev[2], w.signable)]
+        if len(stores) != 1 or stores[0][0] != "store":
+            agg["one-store"] = False
+            notes["one-store"] = "%d stores/mutations of the envelope on a returning path" % len(stores)
+            continue
+        ev = stores[0]
+        tgt, val = ev[2], ev[3]
+        if not (tgt[1] == SubC(w.signable, "signatures") and pubhex_of_private(eng.expand(tgt[2]), w.priv)):
+            agg["target"] = False
+            notes["target"] = "stored at %s" % show(tgt)[:120]
+        sig = entry_dict(eng.expand(val))
+        good, why2 = (False, "entry is %s" % show(val)[:80]) if sig is None else signature_hex(sig, w.priv, msg)
+        if not good:
+            agg["value"] = False
+            notes["value"] = why2
+        else:
+            # grammar facts about the stored signature text were established before the store
+            idx = evs.index(ev) if ev in evs else len(evs)
+            checked = hexconj(st, sig, 128) and any(e[0] == "call" and e[2].startswith("repo:") and e[5][0] == "ok" and any(_mentions(a, sig) for a in e[3]) for e in evs[:idx])
+            if not checked:
+                agg["checked-before-store"] = False
+    texts = {
+        "gates": ("sign_signable validates the key object and the envelope shape before signing", "sign_signable does not validate its key/envelope arguments on every returning path"),
+        "one-store": ("exactly one store into the envelope on every returning path", "not exactly one store into the envelope"),
+        "target": ("the entry is filed under hex(raw public key bytes of the given private key)", "the entry is not filed under the signing key's own public key"),
+        "value": ("the entry is {'signature': hex(private_key.sign(canonserialize(signable['signed'])))}", "the stored entry is not a signature by the given key over the canonical payload"),
+        "checked-before-store": ("the entry passed the signature-entry grammar before it was stored", "the entry is stored without having passed the signature-entry grammar first"),
+    }
+    for k, ok2 in agg.items():
+        ctx.count(rule + ".items")
+        ctx.ob(rule, "sign-signable|%s" % k, ssite.loc(), (texts[k][0] if ok2 else texts[k][1] + (": " + notes[k] if k in notes else "")) + " (%d returning paths)" % n_paths, ok2)
+    fx = Effects(eng)
+    pw = fx.param_writes(w.sm.fi)
+    bad = [x for x in pw if not (x[0] == w.sm.params[0] and len(x[1]) == 2 and x[1][0] == ("sub", C("signatures")) and x[1][1][0] == "sub" and pubhex_of_private(eng.expand(x[1][1][1]), w.priv))]
+    ctx.ob(rule, "sign-signable|write-set", ssite.loc(), "interprocedural write set of sign_signable %s" % ("is exactly signable['signatures'][<its key>]" if not bad and pw else "contains more than the signer's own entry: " + "; ".join("%s%s" % (x[0], x[1]) for x in bad)[:200]), not bad and bool(pw))
 
 
 def _rooted(t, root):
